@@ -57,6 +57,39 @@ impl<B: StarkField + winter_math::ExtensibleField<2>> DrawExt<B> for With2 {
     }
 }
 
+/// a value s such that the coin seeded with [1, s] has, as its first base-field candidate (counter 1), an integer in
+/// [modulus, 2^modulus_bits): the rejection rule "below the modulus" and "fits into modulus_bits bits" differ exactly there
+fn witness_seed<B: StarkField, H: ElementHasher<BaseField = B>>() -> Option<u32> {
+    use std::collections::HashMap;
+    use std::sync::Mutex;
+    static CACHE: Mutex<Option<HashMap<String, Option<u32>>>> = Mutex::new(None);
+    if B::ELEMENT_BYTES != 8 || B::MODULUS_BITS >= 64 {
+        return None;
+    }
+    let key = std::any::type_name::<H>().to_string();
+    if let Some(v) = CACHE.lock().unwrap().get_or_insert_with(HashMap::new).get(&key) {
+        return *v;
+    }
+    let m = u64::from_le_bytes(B::get_modulus_le_bytes()[..8].try_into().unwrap());
+    let mut found = None;
+    // an algebraic hasher whose digest starts with a canonical element never produces such a candidate: bounded search
+    let t0 = std::time::Instant::now();
+    for s in 3u32..6_000_000 {
+        if s % 4096 == 0 && t0.elapsed().as_secs() >= 6 {
+            break;
+        }
+        let d = H::hash_elements(&[B::from(1u32), B::from(s)]);
+        let c = H::merge_with_int(d, 1);
+        let v = u64::from_le_bytes(c.as_bytes()[..8].try_into().unwrap());
+        if v >= m && (v >> B::MODULUS_BITS) == 0 {
+            found = Some(s);
+            break;
+        }
+    }
+    CACHE.lock().unwrap().get_or_insert_with(HashMap::new).insert(key, found);
+    found
+}
+
 fn run_hist<B: StarkField, H: ElementHasher<BaseField = B>, D: DrawExt<B>>(hname: &str, idx: usize, h: &Hist, out: &mut Vec<String>) {
     type C<H> = DefaultRandomCoin<RecHasher<H>>;
     let modulus = B::get_modulus_le_bytes();
@@ -67,7 +100,10 @@ fn run_hist<B: StarkField, H: ElementHasher<BaseField = B>, D: DrawExt<B>>(hname
     for (i, o) in h.hist.iter().enumerate() {
         let rec = match o.op.as_str() {
             "new" => {
-                let seed: Vec<B> = vec![B::from(1u32), B::from(1 + o.a as u32)];
+                // seed 2 of a field whose modulus leaves room below the next power of two (the 62-bit field): a seed whose first
+                // candidate for a base-field draw lies in [modulus, 2^bits) and therefore has to be skipped (found by search)
+                let second = if o.a == 2 { witness_seed::<B, H>().unwrap_or(1 + o.a as u32) } else { 1 + o.a as u32 };
+                let seed: Vec<B> = vec![B::from(1u32), B::from(second)];
                 let mut sb = Vec::new();
                 for e in &seed {
                     e.write_into(&mut sb);
